@@ -97,11 +97,13 @@ std::vector<double> GenerateStochasticDistribution (std::vector<double> mesh_x, 
     for(;;)
       {
       double cumul = 0;
-      double target = uiud(rng) * tot_species[s];
+      // removal : pick one of the molecules that are present, so that every draw removes one;
+      // addition : pick a mesh according to the real valued amounts.
+      double target = uiud(rng) * (rm_species ? tot2_species[s] : tot_species[s]);
 
       for(int i=0; i<n_meshes; i++)
         {
-        cumul += mesh_x[i*n_species+s];
+        cumul += (rm_species ? mesh_x_sto[i*n_species+s] : mesh_x[i*n_species+s]);
         if(target<cumul)
           {
           if(rm_species) // remoive species
@@ -109,6 +111,7 @@ std::vector<double> GenerateStochasticDistribution (std::vector<double> mesh_x, 
             if(mesh_x_sto[i*n_species+s]>0)
               {
               mesh_x_sto[i*n_species+s]--;
+              tot2_species[s]--;
               delta_count++;
               }
             }
